@@ -26,6 +26,7 @@ def build(repo, findings):
     f.resub(r'\.map\(\|s\| Cow::Borrowed\(s\.as_str\(\)\)\)', '.vx_map_owned_()', 'R14', 'Option::map with the closure `|s| Cow::Borrowed(s.as_str())` -> stub (same characters)', count=None)
     f.resub(r'(?m)=> ((?:[^\n,]|\([^\n]*?\))*?)\.vx_map_owned_\(\)', r'=> vx_map_owned(\1)', 'R14', 'method form -> call form of the stub', count=None)
     f.resub(r'Cow::Borrowed\((\w+)\.as_str\(\)\)', r'vx_str_owned(\1.as_str())', 'R17', 'Cow::Borrowed(&str) -> owned string with the same characters', count=None)
+    f.resub(r'Cow::Borrowed\(("[^"]*")\)', r'vx_str_owned(\1)', 'R17', 'Cow::Borrowed(literal) -> owned string with the same characters', count=None)
     f.sig(fn, ret='r', ensures=[
         C('C06,C05 unsubscripted-value-reads-as-element-zero-or-unset', '(r is Some) == (scalar_view(*self) is Some) && (r is Some ==> r->Some_0@ == scalar_view(*self)->Some_0)'),
     ])
